@@ -7,6 +7,30 @@ import hashlib
 import os
 
 
+def exc_parents_of(name, parents):
+    """Direct base names of exception class `name` (a str entry is a single base)."""
+    v = parents.get(name)
+    if v is None:
+        return ()
+    return (v,) if isinstance(v, str) else tuple(v)
+
+
+def exc_is_subclass(name, base, parents):
+    """Is exception class `name` the class `base` or derived from it?  `parents` maps a class
+    name to its base name or to a tuple of base names (multiple inheritance)."""
+    seen = set()
+    work = [name]
+    while work:
+        n = work.pop()
+        if n is None or n in seen:
+            continue
+        if n == base:
+            return True
+        seen.add(n)
+        work.extend(exc_parents_of(n, parents))
+    return False
+
+
 class AnalysisError(Exception):
     """The analysis cannot decide (vanished anchor, shape not understood).
 
